@@ -190,6 +190,23 @@ func DupKeys(mm *gostatsd.MetricMap) []string {
 	return out
 }
 
+// StaleKeys reports series that a stage stored under a key other than the one their own source and tags render to.
+// Downstream stages merge by that key, so a series under a stale key is aggregated apart from its equals.
+func StaleKeys(mm *gostatsd.MetricMap) []string {
+	var out []string
+	check := func(kind, n, k string, src gostatsd.Source, tags gostatsd.Tags) {
+		if want := gostatsd.FormatTagsKey(src, tags); k != want {
+			out = append(out, fmt.Sprintf("%s %q stored under key %q, its source %q and tags %q render to %q", kind, n, k, src, []string(tags), want))
+		}
+	}
+	mm.Counters.Each(func(n, k string, c gostatsd.Counter) { check("counter", n, k, c.Source, c.Tags) })
+	mm.Timers.Each(func(n, k string, c gostatsd.Timer) { check("timer", n, k, c.Source, c.Tags) })
+	mm.Sets.Each(func(n, k string, c gostatsd.Set) { check("set", n, k, c.Source, c.Tags) })
+	mm.Gauges.Each(func(n, k string, c gostatsd.Gauge) { check("gauge", n, k, c.Source, c.Tags) })
+	sort.Strings(out)
+	return out
+}
+
 // Opts control comparison.
 type Opts struct {
 	IgnoreTimestamps bool
